@@ -40,6 +40,7 @@ func StepDeadline(n int, label string)     {}
 func Go(f func())                          {}
 func Join()                                {}
 func Yield()                               {}
+func SetPreemptionBound(n int)             {}
 func TempDir() string                      { return "/zz/root" }
 func TimeOf(ns int64) time.Time            { return time.Time{} }
 func ReplayMain(fns map[string]func())     {}
